@@ -24,6 +24,10 @@ def _side(rec):
     with open(_SIDE, "a") as f:
         f.write(json.dumps(rec) + "\n")
 _cfg = json.loads(os.environ["VERIF_CHILD_CFG"])
+if "random_seed" in _cfg:
+    import random as _rm
+    _rr = _rm.Random(_cfg["random_seed"])
+    _rm.SystemRandom = lambda *a: _rr
 if _cfg.get("importfail"):
     import importlib.abc
     class _Fail(importlib.abc.MetaPathFinder):
